@@ -144,7 +144,8 @@ Section SemProofs.
     split; [exact E|]. rewrite E. unfold st1.
     assert (L : alookup x (sm_cv (sem_step st ob)) =
                 match alookup x (sm_cv st) with
-                | Some c => Some (mk_cvsem (Some d) (cs_collect c) (step_valid (ob_ok ob) c (Some d)))
+                | Some c => Some (mk_cvsem (Some d) (cs_collect c) (step_valid (ob_ok ob) c (Some d))
+                                           (fst (step_cvcs (ob_ok ob) c (Some d))) (snd (step_cvcs (ob_ok ob) c (Some d))))
                 | None => None end).
     { unfold sem_step. cbn [sm_cv]. rewrite alookup_map_fst. cbn [fst snd]. rewrite Hd. reflexivity. }
     destruct (alookup x (sm_cv st)) as [c|] eqn:Ec; [|contradiction].
@@ -172,7 +173,8 @@ Section SemProofs.
     - destruct Hf as [Hf|Hf]; [discriminate|]. rewrite Hf. cbn [snd fst]. split; [reflexivity|].
       intros c' Hc'. rewrite Hc in Hc'. injection Hc' as <-. rewrite E1, Hf. split; reflexivity.
     - cbn [snd fst]. split; [reflexivity|]. intros c' Hc'. unfold set_flags in Hc'. rewrite Hc in Hc'. cbn [sm_cv] in Hc'.
-      assert (A : forall l, alookup x l = Some c -> alookup x (aset x (mk_cvsem (cs_data c) true (Some false)) l) = Some (mk_cvsem (cs_data c) true (Some false))).
+      assert (A : forall l, alookup x l = Some c -> alookup x (aset x (mk_cvsem (cs_data c) true (Some false) (cs_cvcs c) (cs_pending c)) l)
+                                                  = Some (mk_cvsem (cs_data c) true (Some false) (cs_cvcs c) (cs_pending c))).
       { induction l as [|[m b] r IH]; cbn [alookup aset]; [discriminate|].
         destruct (String.eqb m x) eqn:Em; cbn [alookup]; rewrite Em; [reflexivity | exact IH]. }
       rewrite (A _ Hc) in Hc'. injection Hc' as <-. cbn [cs_collect cs_valid]. split; reflexivity.
@@ -185,10 +187,32 @@ Section SemProofs.
     body_sem (sem_step st ob) e words = (sem_step st ob, QVecs (cd_grads d)).
   Proof.
     intros Hn Hx Hc Hd Hcol Hok Hact. unfold body_sem. rewrite Hn. cbn -[alookup sem_step]. rewrite Hx.
-    assert (L : alookup x (sm_cv (sem_step st ob)) = Some (mk_cvsem (Some d) (cs_collect c) (step_valid (ob_ok ob) c (Some d)))).
+    assert (L : alookup x (sm_cv (sem_step st ob)) = Some (mk_cvsem (Some d) (cs_collect c) (step_valid (ob_ok ob) c (Some d))
+                                                                 (fst (step_cvcs (ob_ok ob) c (Some d))) (snd (step_cvcs (ob_ok ob) c (Some d))))).
     { unfold sem_step. cbn [sm_cv]. rewrite alookup_map_fst. cbn [fst snd]. rewrite Hc, Hd. reflexivity. }
     rewrite L. cbn [cs_collect cs_valid cs_data]. rewrite Hcol. cbn [negb]. unfold step_valid. rewrite Hcol, Hok, Hact.
     destruct (cs_valid c) as [[|]|]; reflexivity.
+  Qed.
+
+  (* ---- deferred component flags (cvcflags): stored, last accepted command wins, applied by the next calc() ---- *)
+  Lemma alookup_aset_same {A} x (a : A) l : alookup x l <> None -> alookup x (aset x a l) = Some a.
+  Proof.
+    induction l as [|[m b] r IH]; cbn [alookup aset]; [intros H; contradiction|].
+    destruct (String.eqb m x) eqn:Em; cbn [alookup]; rewrite Em; [reflexivity | exact IH].
+  Qed.
+
+  Lemma cvcflags_body (st : sem) e words x cs cur :
+    e_name e = "colvar_cvcflags" -> nth 2 words "" = x -> alookup x (sm_cv st) = Some cs -> cs_cvcs cs = Some cur ->
+    let r := set_pending cur (cs_pending cs) (parse_flags (nth 4 words "")) in
+    snd (body_sem st e words) = (if snd r then QInt 0 else QErr) /\
+    alookup x (sm_cv (fst (body_sem st e words))) =
+      Some (mk_cvsem (cs_data cs) (cs_collect cs) (cs_valid cs) (Some cur) (fst r)) /\
+    sm_mod (fst (body_sem st e words)) = sm_mod st /\ sm_bias (fst (body_sem st e words)) = sm_bias st.
+  Proof.
+    intros Hn Hx Hc Hcur r. unfold body_sem. rewrite Hn. cbn -[alookup set_cvcs set_pending parse_flags]. rewrite Hx, Hc, Hcur.
+    fold r. destruct r as [p ok]. cbn [fst snd]. split; [reflexivity|].
+    unfold set_cvcs. rewrite Hc. cbn [sm_cv sm_mod sm_bias]. split; [|split; reflexivity].
+    apply alookup_aset_same. rewrite Hc. discriminate.
   Qed.
 
   (* the data stay attached to the objects that exist, over every history *)
@@ -217,11 +241,20 @@ Section SemProofs.
       - destruct (cs_collect cs); [split; [split; assumption | reflexivity] | apply F].
       - apply F.
       - split; [split; assumption | reflexivity]. }
+    assert (G : forall (s0 : sem) n a p, sem_wf s0 -> sm_objs s0 = sm_objs st -> sem_wf (set_cvcs s0 n a p) /\ sm_objs (set_cvcs s0 n a p) = sm_objs st).
+    { intros s0 n a p [W1 W2] Ho. unfold set_cvcs. destruct (alookup n (sm_cv s0)); [|split; [split; assumption | exact Ho]].
+      unfold sem_wf. cbn [sm_cv sm_bias sm_objs]. rewrite map_fst_aset. repeat split; assumption. }
+    destruct (String.eqb (e_name e) "colvar_cvcflags").
+    { destruct (alookup (nth 2 words "") (sm_cv st)) as [cs|]; [|split; [split; assumption | reflexivity]].
+      destruct (cs_cvcs cs) as [cur|].
+      - destruct (set_pending cur (cs_pending cs) (parse_flags (nth 4 words ""))) as [p ok]. cbn [fst]. apply G; [split; assumption | reflexivity].
+      - cbn [fst]. apply G; [split; assumption | reflexivity]. }
     assert (FI : forall n c v, sem_wf (set_flags (invalidate st) n c v) /\ sm_objs (set_flags (invalidate st) n c v) = sm_objs st).
     { intros n c v. destruct I as [[I1 I2] I3]. unfold set_flags. destruct (alookup n (sm_cv (invalidate st))); [|split; [split; assumption | exact I3]].
       unfold sem_wf. cbn [sm_cv sm_bias sm_objs]. rewrite map_fst_aset. repeat split; assumption. }
     destruct (String.eqb (e_name e) "colvar_update").
-    { cbn [fst]. destruct (alookup (nth 2 words "") (sm_cv st)) as [cs|]; [apply FI | exact I]. }
+    { cbn [fst]. destruct (alookup (nth 2 words "") (sm_cv st)) as [cs|]; [|exact I].
+      destruct (FI (nth 2 words "") (cs_collect cs) (if cs_collect cs then None else Some false)) as [W Ho]. apply G; assumption. }
     destruct (String.eqb (e_name e) "cv_update"); [|exact I].
     cbn [fst]. destruct I as [[I1 I2] I3]. unfold sem_wf. cbn [sm_cv sm_bias sm_objs]. rewrite map_map. cbn [fst].
     repeat split; assumption.
@@ -247,3 +280,44 @@ Section SemProofs.
 
   (* the semantic layer refines the structural one: the object sets evolve as in ScriptModel *)
 End SemProofs.
+
+(* ---- last accepted command wins (list level) ---- *)
+Definition last_accepted (cur : list bool) (cmds : list (list bool)) : option (list bool) :=
+  find (fun f => (List.length f =? List.length cur)%nat) (rev cmds).
+Definition pending_after (cur : list bool) (p0 : option (list bool)) (cmds : list (list bool)) : option (list bool) :=
+  fold_left (fun p f => fst (set_pending cur p f)) cmds p0.
+
+Lemma find_snoc {A} (p : A -> bool) l x : find p (l ++ [x])%list = match find p l with Some y => Some y | None => if p x then Some x else None end.
+Proof. induction l as [|a r IH]; cbn [app find]; [reflexivity|]. destruct (p a); [reflexivity | exact IH]. Qed.
+
+Lemma pending_after_last cur cmds : forall p0,
+  pending_after cur p0 cmds = match last_accepted cur cmds with Some f => Some f | None => p0 end.
+Proof.
+  unfold pending_after, last_accepted. induction cmds as [|f r IH]; intros p0; cbn [fold_left rev find]; [reflexivity|].
+  rewrite IH. rewrite find_snoc. unfold set_pending.
+  destruct (find (fun f0 => (List.length f0 =? List.length cur)%nat) (rev r)) as [g|]; [reflexivity|].
+  destruct (List.length f =? List.length cur)%nat; reflexivity.
+Qed.
+
+(* after any burst of cvcflags commands between two updates, the components enabled at the next update are those of the LAST
+   accepted command (unchanged if none was accepted; all off and still pending if it enables nothing) *)
+Lemma cvcflags_last_command_wins cur cmds :
+  apply_pending cur (pending_after cur None cmds) =
+  match last_accepted cur cmds with
+  | None => (cur, None)
+  | Some f => if existsb (fun b => b) f then (f, None) else (f, Some f)
+  end.
+Proof. rewrite pending_after_last. destruct (last_accepted cur cmds); reflexivity. Qed.
+
+Lemma last_accepted_spec cur cmds f : last_accepted cur cmds = Some f ->
+  List.length f = List.length cur /\ exists before after, cmds = (before ++ f :: after)%list /\
+  Forall (fun g => List.length g <> List.length cur) after.
+Proof.
+  unfold last_accepted. revert f. induction cmds as [|g r IH] using rev_ind; intros f H; [discriminate|].
+  rewrite rev_app_distr in H. cbn [rev app find] in H.
+  destruct (List.length g =? List.length cur)%nat eqn:E.
+  - injection H as <-. apply Nat.eqb_eq in E. split; [exact E|]. exists r, []. split; [reflexivity | constructor].
+  - destruct (IH f H) as [Hl (b & a & Hr & Ha)]. split; [exact Hl|]. exists b, (a ++ [g])%list. split.
+    + rewrite Hr. rewrite <- app_assoc. reflexivity.
+    + apply Forall_app. split; [exact Ha|]. constructor; [|constructor]. apply Nat.eqb_neq. exact E.
+Qed.
